@@ -29,7 +29,7 @@ ITEMS = [
     # known-answer suppression: matches && other.ttl > self.ttl / 2
     ("suppress_ttl_test", [("other_ttl", "N"), ("self_ttl", "N")], "bool", P,
      r"fn suppressed_by_answer\(&self, other: &dyn DnsRecordExt\) -> bool ",
-     r"self\.matches\(other\) && \((?P<e>[^()]*(?:\(\))?[^()]*(?:\(\))?[^()]*)\)\s*$",
+     r"same_record && \((?P<e>[^()]*(?:\(\))?[^()]*(?:\(\))?[^()]*)\)\s*$",
      {"other.get_record().ttl": "other_ttl", "self.get_record().ttl": "self_ttl"}, False),
     # a response is sent only when at least one answer was added
     ("respond_guard", [("answers_count", "N")], "bool", D, H_HQ,
@@ -40,6 +40,8 @@ ITEMS = [
     # DnsOutgoing::new: the multicast flag every outgoing message starts with (never changed afterwards)
     ("outgoing_multicast_default", [], "bool", P, r"pub fn new\(flags: u16\) -> Self ",
      r"multicast: (?P<e>true|false),", BOOL, False),
+    # handle_query: a legacy unicast response is marked as not multicast, so that its id is written
+    ("legacy_multicast_flag", [], "bool", D, H_HQ, r"out\.set_multicast\((?P<e>true|false)\);", BOOL, False),
     # to_packets: the id written into the header of a message whose multicast flag is set
     ("wire_id_when_multicast", [], "N", P, r"pub fn to_packets\(&self\) -> Vec<DnsOutPacket> ",
      r"let id = if self\.multicast \{ (?P<e>\d+) \} else \{ self\.id \};", {}, False),
